@@ -19,13 +19,13 @@ func init() {
 }
 
 func runC17(c *Ctx) {
-	c.Rule("R17a", "alterTable builders (mysql, postgres): in the change type switch every case that can reach a non-error exit appends to the reverse list or assigns the reversible flag on every such path", 30)
-	c.Rule("R17b", "Plan.Reversible: SetReversible ranges over all plan changes, clears the flag when a change has no reverse statements and never sets it inside the loop; each PlanChanges calls it on every success path; any other store assigns the constant false", 6)
-	c.Rule("R17c", "sqltool down templates range over `rev .Changes` and print every element of .ReverseStmts; the up part ranges over .Changes; `rev` reverses a copy", 6)
-	c.Rule("R17e", "alterTable builders: the reverse change recorded in a case is the inverse kind of the case's change (Add<X>↔Drop<X> with the same payload, Modify<X>/Rename<X> with From/To swapped)", 30)
+	c.Rule("R17a", "alterTable builders (mysql, postgres): in the change type switch every case that can reach a non-error exit appends to the reverse list or assigns the reversible flag on every such path", 15)
+	c.Rule("R17b", "Plan.Reversible: SetReversible ranges over all plan changes, clears the flag when a change has no reverse statements and never sets it inside the loop; each PlanChanges calls it on every success path; any other store assigns the constant false", 4)
+	c.Rule("R17c", "sqltool down templates range over `rev .Changes` and print every element of .ReverseStmts; the up part ranges over .Changes; `rev` reverses a copy", 4)
+	c.Rule("R17e", "alterTable builders: the reverse change recorded in a case is the inverse kind of the case's change (Add<X>↔Drop<X> with the same payload, Modify<X>/Rename<X> with From/To swapped)", 15)
 
 	c.Rule("R17h", "alterTable builders: the reversible flag is monotone: every assignment is the constant false or a conjunction that includes the flag itself", 3)
-	c.Rule("R17g", "planner statements: in every migrate.Change literal that sets both Cmd and Reverse, each object path named by the reverse statement (argument of Ident/Table/…) is covered by an object path the forward statement is built from in the same function", 15)
+	c.Rule("R17g", "planner statements: in every migrate.Change literal that sets both Cmd and Reverse, each object path named by the reverse statement (argument of Ident/Table/…) is covered by an object path the forward statement is built from in the same function", 10)
 	c.Rule("R17f", "alterTable builders: the reverse statement is stored only under `if reversible`, after sqlx.ReverseChanges(reverse) reversed the recorded changes", 4)
 	c.Rule("R17i", ruleTextFreshScratch, 4)
 	checkFreshScratchState(c, "R17i", []string{pSqlite, pMysql, pPostgres})
